@@ -343,6 +343,17 @@ class C17(Prop):
             if not model.eq_set(dump_to_jv(lib, dup), to, True):
                 raise Violation("the library applying its own patch yields %s: %s" % (model.emit_text(dump_to_jv(lib, dup))[:200], ctx), key="lib-result")
             sound_and_usable(lib, dup, "patched copy")
+            # a document against ITSELF (the same object as both arguments): equal, so the patch is empty, and it is still intact
+            selfp = lib.cJSONUtils_GeneratePatchesCaseSensitive(pt, pt)
+            try:
+                if not selfp or lib.cJSON_GetArraySize(selfp) != 0 or (lib.shim_type(selfp) & 0xFF) != 32:
+                    raise Violation("the patch from a document to itself (one object passed twice) is not an empty array: " + ctx, key="empty-iff-equal")
+            finally:
+                if selfp:
+                    lib.cJSON_Delete(selfp)
+            sound_and_usable(lib, pt, "'to' after a self-diff")
+            if not model.eq_set(dump_to_jv(lib, pt), to, True):
+                raise Violation("'to' changed in value when it was diffed against itself: " + ctx, key="input-modified")
             if not case.get("deep"):
                 self.second_round(lib, pf, pt, rnd, stats)
             # classification
